@@ -109,5 +109,21 @@ func (r *NodeManagement) HandleMessage(message *api.Message) *model.ErrorType {
 		return model.NewErrorType(model.ErrorNumberTypeCommandNotSupported, fmt.Sprintf("nodemanagement.Handle: Cmd data not implemented: %s", message.Cmd.DataName()))
 	}
 
+	// an accepted reply triggers the response callbacks registered for the request, as on every other feature
+	if message.CmdClassifier == model.CmdClassifierTypeReply &&
+		message.RequestHeader != nil && message.RequestHeader.MsgCounterReference != nil {
+		if cmdData, err := message.Cmd.Data(); err == nil {
+			responseMsg := api.ResponseMessage{
+				MsgCounterReference: *message.RequestHeader.MsgCounterReference,
+				Data:                cmdData.Value,
+				FeatureLocal:        r,
+				FeatureRemote:       message.FeatureRemote,
+				EntityRemote:        message.EntityRemote,
+				DeviceRemote:        message.DeviceRemote,
+			}
+			r.processResponseMsgCallbacks(*message.RequestHeader.MsgCounterReference, responseMsg)
+		}
+	}
+
 	return nil
 }
